@@ -180,7 +180,9 @@ def run_overlap(chk, imax):
 
 # ------------------------------------------------------------------ union
 def uni_key(kind):
-    return {"blend-sign": "union2d-blend-prune", "default-min-value": "union2d-default-min"}[kind]
+    return {"blend-sign": "union2d-blend-prune", "default-min-value": "union2d-default-min",
+            "default-min-value-undercut": "union2d-default-min-undercutting-operand",
+            "exhaustive-not-min-of-operands": "union2d-exhaustive-not-min-of-operands"}[kind]
 
 
 def judge_unions(chk, obs, chunk_size=100):
